@@ -955,8 +955,7 @@ fn process_items(cx: &mut Ctx, items: Vec<Item>, impl_counter: &mut usize) {
                     let is_serde = ts(&im.trait_.as_ref().unwrap().1).starts_with("serde ::");
                     let dropped = DROPPED_IMPL_TRAITS.iter().any(|d| d.replace(' ', "") == tn0 || *d == base)
                         || (is_serde && cx.cur_file != "keypair");
-                    let argon = ts(&im.self_ty).contains("argon2");
-                    if dropped || argon {
+                    if dropped {
                         cx.dropped.push(format!("{}: impl {} for {}", cx.cur_src, tn0, ts(&im.self_ty).replace(' ', "")));
                         continue;
                     }
